@@ -134,9 +134,16 @@ def run_scenario(prop_id, scenario, with_log=False, perturb=0):
 def _chunk_worker(prop_id, seeds, tier):
     faulthandler.enable()
     out = []
+    kept = {True: 0, False: 0}
     for seed in seeds:
         verdict = run_seed(prop_id, seed, tier)
-        verdict.pop("consulted", None) if verdict.get("ok") else None
+        if verdict.get("ok"):
+            verdict.pop("consulted", None)
+            flavour = bool(verdict.get("nontrivial"))
+            if kept[flavour] >= 1:
+                verdict.pop("summary", None)  # a few written-out samples per chunk are enough for the evidence file
+            else:
+                kept[flavour] += 1
         out.append(verdict)
     return out
 
